@@ -15,7 +15,8 @@ CHECKS = {
         "histories/interleavings up to the bound.  The code is bound by driving the real integration (both decorator "
         "subsystems) through generated histories and letting TLC decide whether each recording is a behaviour of the same "
         "operators.",
-        "Bounded model (2 entities, 2 values, 1 attribute, <= 3 operations); expression truth restricted to the Expr grammar; "
+        "Bounded model (2 entities, 2 values, 1 attribute, <= 3 operations); expressions restricted to the TrigCore grammar "
+        "(comparisons, and/or/not, conditional expressions, raising int() nodes; three-valued evaluation); "
         "HA core trusted; recordings sampled (random histories), not exhaustive.",
         "DESIGN.md section 5 C04, Appendix F"),
     "C05": (
@@ -27,7 +28,8 @@ CHECKS = {
         "evaluations, and that non-evaluating changes are stuttering steps.  The real decorators and task.wait_until (both "
         "subsystems) run timed scenarios on a virtual clock; TLC folds the same operators over each recorded history and "
         "accepts or rejects the observed run times and arguments.",
-        "Grid of even event times with S,H in {None,0,3} (no ties); one watched entity with expression a == '1'; "
+        "Grid of even event times with S,H in {None,0,3} (no ties); one watched entity with expression a in ['1','2'] "
+        "over the values 0,3 (false) and 1,2 (true); "
         "recordings sampled; virtual clock replaces time.monotonic/loop.time.",
         "DESIGN.md section 5 C05, Appendices B and K"),
     "C07": (
@@ -40,7 +42,8 @@ CHECKS = {
         "bound.  Real functions carrying state, event and time triggers (both subsystems) are driven through timelines with "
         "occurrences exactly on window end points and hold_off boundaries; TLC folds the same operators over each recording.",
         "Daily range() windows on an integer-second grid at decorator level (other forms at function level); occurrences "
-        "settled one at a time; recordings sampled.",
+        "settled one at a time except bursts of changes of one entity at one instant; every trigger type declared by one or "
+        "two decorators; recordings sampled.",
         "DESIGN.md section 5 C07, Appendix G"),
     "C08": (
         "TLC model checking of spec/Msgs.tla (listener fan-out, per-trigger FIFO, filter, one task per accepted message, "
